@@ -10,7 +10,9 @@ EXPLANATION = (
     "parser recognises with strip_prefix, the inner pieces of the hunk header and index templates start with the parser's literals, "
     "and the line markers '+', '-', ' ' are the ones parse_hunk_line matches; (R2) git-only keywords are written after the "
     "'diff --git' separator that switches the parser into the state that knows them; (R3) writer and parser use the same constant "
-    "for the no-newline marker and for /dev/null; (R4) the hunk writer's loop ends only when both sides are exhausted. Not decided: "
+    "for the no-newline marker and for /dev/null; (R4) the hunk writer's loop ends only when both sides are exhausted; (R6) the walk itself: the closest-match helper is "
+    "given the unwritten remainders of the two sides, every pair it returns was compared equal on its own parameters (or is the "
+    "full remaining length of both), and '-' / '+' are written in front of lines of the remove / add side. Not decided: "
     "structural equality parse(write(p)) = p (e.g. start lines of empty sides are written as 0) and the byte-level fixed point."
 )
 LEVEL_NOTE = "Undecided: value-level round trip (line numbers of empty sides, exact interleaving chosen by find_closest_match)."
@@ -246,6 +248,108 @@ def run(ck):
                        "the writer loop can end via %s with only %s exhausted: lines of the other side would be lost" % (ex, sorted(sides)), hw.where(),
                        ok_detail="exit %s implies add_i >= len(add) and remove_i >= len(remove)" % (ex,))
         ck.floor("C12-R4", "normal exits of the hunk writer loop", len(exits), 1)
+    r6(ck, hw)
+
+
+def r6(ck, hw):
+    """The walk of the hunk writer: the helper's contract and the marker written for each side."""
+    prog = ck.prog
+    rule = "C12-R6"
+    fcm = calls_named(hw, "write_to::find_closest_match")
+    if len(fcm) != 1:
+        return
+    bb, t, c = fcm[0]
+    helper = prog.fns.get(c.get("rpath"))
+    if not ck.require(helper is not None and helper.arg_count == 2, rule, "closest-match helper found", "callee %s" % c.get("rpath"), hw.where(t)):
+        return
+    # (a) the two arguments are the unwritten remainders  add[add_i..], remove[remove_i..]
+    sides = []
+    for a in t["args"]:
+        e = df.operand_expr(hw, a)
+        ok = df.is_call(e, "Index<I>>::index") and isinstance(e[2][1], tuple) and e[2][1][0] == "agg" and e[2][1][1].endswith("ops::range::RangeFrom")
+        side = None
+        if ok:
+            base = e[2][0]
+            side = "add" if df.mentions(base, lambda x: isinstance(x, tuple) and x[0] == "field" and x[2] == "add") else \
+                "remove" if df.mentions(base, lambda x: isinstance(x, tuple) and x[0] == "field" and x[2] == "remove") else None
+        sides.append(side)
+        ck.require(side is not None, rule, "helper is given the unwritten remainder of a side", "argument %s is not side[cursor..]" % df.show(e, 120), hw.where(t))
+    ck.require(sorted(x for x in sides if x) == ["add", "remove"], rule, "helper compares the two sides with each other", "sides passed: %s" % sides, hw.where(t))
+    # (b) contract of the helper: every result is a pair of indices of equal elements of its *parameters*, or (len(a), len(b))
+    nmatch = nfull = 0
+    eqs = guards.find_bool_guards(helper, lambda e: df.is_call(e, "::eq") and len(e[2]) == 2)
+    for dd in df.defs_of(helper).all(0):
+        if helper.blocks[dd[1]]["cleanup"]:
+            continue
+        e = df.rvalue_expr(helper, dd[3]["rv"]) if dd[0] == "stmt" else df.call_expr(helper, dd[2])
+        where = helper.where(dd[3]) if dd[0] == "stmt" else helper.where(dd[2])
+        if not (isinstance(e, tuple) and e[0] == "agg" and len(e[3]) == 2):
+            ck.violate(rule, "helper returns a pair", "find_closest_match returns %s" % df.show(e, 120), where)
+            continue
+        x, y = e[3]
+        is_len = lambda v, i: df.is_call(v, "::len") and len(v[2]) == 1 and isinstance(v[2][0], tuple) and v[2][0][:2] == ("param", i)
+        if is_len(x, 1) and is_len(y, 2):
+            nfull += 1
+            ck.ok(rule, "helper: no common line -> everything that is left", "(len(a), len(b)) of the parameters themselves", where)
+            continue
+        good = False
+        for g in eqs:
+            if dd[1] not in cfg.dominated_by_edge(helper, g["true_edge"]):
+                continue
+            l, r = g["expr"][2]
+
+            def is_param_or_prefix(b_, i):
+                """param_i itself, or a prefix param_i[..k] / param_i[0..k] of it (same indices)."""
+                if isinstance(b_, tuple) and b_[:2] == ("param", i):
+                    return True
+                if df.is_call(b_, "Index<I>>::index") or df.is_call(b_, "Index<I> for [T]>::index"):
+                    base, rg = b_[2]
+                    if isinstance(rg, tuple) and rg[0] == "agg" and (rg[1].endswith("ops::range::RangeTo") or
+                                                                       (rg[1].endswith("ops::range::Range") and rg[3][0] == ("const", 0, "usize"))):
+                        return is_param_or_prefix(base, i)
+                return False
+
+            def elem(v, i):     # param_i[index] -> index expression
+                if isinstance(v, tuple) and v[0] == "index" and is_param_or_prefix(v[1], i):
+                    ie = v[2]
+                    if isinstance(ie, tuple) and ie[0] == "localidx":
+                        ie = df.local_expr(helper, ie[1])
+                    return ie
+                if df.is_call(v, "Index<I>>::index") and is_param_or_prefix(v[2][0], i):
+                    return v[2][1]
+                return None
+            ix, iy = elem(l, 1), elem(r, 2)
+            if ix is not None and iy is not None and ix == x and iy == y:
+                good = True
+        nmatch += 1 if good else 0
+        ck.require(good, rule, "helper: a reported pair points at two equal lines",
+                   "find_closest_match can return %s without having compared a[%s] with b[%s] of its own parameters: the caller writes that line "
+                   "as context and drops the other side's line" % (df.show(e, 100), df.show(x, 40), df.show(y, 40)), where,
+                   ok_detail="returned on the equal edge of a[i] == b[j] for exactly these i, j")
+    ck.floor(rule, "match returns of the helper", nmatch, 1)
+    ck.floor(rule, "exhausted return of the helper", nfull, 1)
+    # (c) marker written for each side
+    want = {45: "remove", 43: "add"}       # '-' , '+'
+    n = 0
+    for b2, t2 in hw.calls():
+        c2 = callee_of(t2)
+        if not (c2.get("self_closure") and (c2.get("path") or "").endswith("FnMut::call_mut")) or len(t2["args"]) < 2:
+            continue
+        e = df.operand_expr(hw, t2["args"][1])
+        if not (isinstance(e, tuple) and e[0] == "agg" and len(e[3]) == 2 and isinstance(e[3][0], tuple) and e[3][0][0] == "const"):
+            continue
+        mk, line = e[3][0][1], e[3][1]
+        side = "add" if df.mentions(line, lambda x: isinstance(x, tuple) and x[0] == "field" and x[2] == "add") else \
+            "remove" if df.mentions(line, lambda x: isinstance(x, tuple) and x[0] == "field" and x[2] == "remove") else None
+        n += 1
+        if mk in want:
+            ck.require(side == want[mk], rule, "marker %r is written for lines of the %s side" % (chr(mk), want[mk]),
+                       "%r is written in front of %s" % (chr(mk), df.show(line, 100)), hw.where(t2))
+        elif mk == 32:
+            ck.require(side in ("add", "remove"), rule, "context lines come from the hunk", "' ' is written in front of %s" % df.show(line, 100), hw.where(t2))
+        else:
+            ck.violate(rule, "line marker is one of '+', '-', ' '", "marker byte %r" % mk, hw.where(t2))
+    ck.floor(rule, "line writes in the hunk writer", n, 3)
 
 
 def closest(text, table):
